@@ -632,6 +632,7 @@ int main(int argc, char **argv) {
     // wait, watching the child's resident memory: a case that grows beyond the limit is killed and reported as
     // MEMLIMIT (work not bounded by the input), so that a runaway allocation cannot take the machine down
     bool memkill = false;
+    useconds_t nap = 100;
     for (;;) {
       pid_t w = waitpid(pid, &st, WNOHANG);
       if (w == pid) break;
@@ -647,7 +648,8 @@ int main(int argc, char **argv) {
         }
         fclose(f);
       }
-      usleep(memkill ? 1000 : 20000);
+      usleep(memkill ? 1000 : nap);
+      if (nap < 20000) nap *= 2;               // short cases are not slowed down, long ones are polled every 20 ms
     }
     if (memkill) {
       printf("\n%s MEMLIMIT\n", id.c_str());
